@@ -368,6 +368,8 @@ def main(ctx):
             if ref is None:
                 return rec.ok(case, outcome="no-data-in-limits:ValueError", nontrivial=True, calls=1)
             return rec.fail(case, "unexpected ValueError: %s" % (e,))
+        except Exception as e:  # never expected
+            return rec.fail(case, "raised %s: %s" % (type(e).__name__, e))
         finally:
             su.have_chist = True
         if ref is None:
@@ -491,6 +493,8 @@ def main(ctx):
             if ref is None:
                 return rec.ok(case, outcome="no-data-in-limits:ValueError", nontrivial=True, calls=1)
             return rec.fail(case, "unexpected ValueError: %s" % (e,))
+        except Exception as e:  # never expected
+            return rec.fail(case, "raised %s: %s" % (type(e).__name__, e))
         finally:
             su.have_chist = True
         if ref is None:
@@ -633,23 +637,25 @@ def main(ctx):
         b = stat.Binner(arr, y=yarr, weights=warr)
         cfg = None
         stats_done = False
-        for ev in hist[1:]:
-            if ev[0] == "dohist":
-                cfg = dict(ev[1])
-                b.dohist(**cfg)
-                stats_done = cfg.get("calc_stats", True)
-            else:
-                if cfg is None:
+        for k, ev in enumerate(hist[1:]):
+            try:
+                if ev[0] == "dohist":
+                    b.dohist(**dict(ev[1]))
+                    cfg = dict(ev[1])
+                    stats_done = cfg.get("calc_stats", True)
+                elif cfg is None:
+                    # nothing to report on yet: "run dohist first" (ValueError) is the documented answer
                     try:
                         b.calc_stats()
                     except ValueError:
                         pass
-                    else:
-                        rec.fail(hist, "calc_stats() before any dohist() did not raise")
-                        return None
                 else:
                     b.calc_stats()
                     stats_done = True
+            except Exception as e:
+                rec.fail(hist, "call %d of %d on one Binner (%s) raised %s: %s" % (
+                    k + 1, len(hist) - 1, ev[0], type(e).__name__, e))
+                return None
         if cfg is not None:
             mn, mx = cfg.get("min"), cfg.get("max")
             if "nperbin" in cfg:
